@@ -43,6 +43,22 @@ void* tzr_build(int n, const long long* unix_times, const unsigned char* types, 
   }
   return z;
 }
+// cctz::convert through the public API on a real zone file: a skipped, a repeated and a unique civil second, and one instant
+int tzr_convert_panel(const char* path) {
+  cctz::time_zone tz;
+  if (!cctz::load_time_zone(path, &tz)) return -1;
+  const cctz::civil_second probes[] = {cctz::civil_second(2011, 3, 13, 2, 30, 0), cctz::civil_second(2011, 11, 6, 1, 30, 0), cctz::civil_second(2011, 7, 1, 12, 0, 0)};
+  int i = 0;
+  for (const auto& cs : probes) {
+    ++i;
+    const auto cl = tz.lookup(cs);
+    const auto want = (cl.kind == cctz::time_zone::civil_lookup::SKIPPED) ? cl.trans : cl.pre;
+    if (cctz::convert(cs, tz) != want) return i;
+  }
+  const auto tp = cctz::FromUnixSeconds(1300000000);
+  if (cctz::convert(tp, tz) != tz.lookup(tp).cs) return 10;
+  return 0;
+}
 void tzr_free(void* h) { delete static_cast<cctz::TimeZoneInfo*>(h); }
 void tzr_hints(void* h, std::size_t a, std::size_t b) { auto* z = static_cast<cctz::TimeZoneInfo*>(h); z->local_time_hint_.store(a); z->time_local_hint_.store(b); }
 // the zone as ExtendTransitions leaves it: the table's tail is declared to be 401 rule-generated years ending in last_year
